@@ -899,7 +899,7 @@ func c20Specs(quick bool) []*bfs.Spec {
 var c20All = specMap(c20Specs(true), c20Specs(false))
 
 func init() {
-	register(&Prop{ID: "C20", Level: "model_checking", QuickBudget: 100 * time.Second, ThoroughBudget: 25 * time.Minute,
+	register(&Prop{ID: "C20", Level: "model_checking", QuickBudget: 300 * time.Second, ThoroughBudget: 25 * time.Minute,
 		Run: func(c *rt.Ctx) {
 			c.Cov["rule"] = "E3 builds the states (every history up to the depth bound over {mint quote, swap, melt quote, melt pending / succeeded, start-up and run-time rotation, restart}, plus a limits configuration); in every distinct state a scripted client speaks to the real handler with hand-assembled JSON decoded into generic maps: every endpoint's honest request must be answered 200 with exactly the NUT field set (string state enums, 66-hex points, decimal-string key maps in ascending order, dleq {e,s} without r); one single-cause request per row of the NUT error table must be answered 400 with exactly {detail, code} and that code; each successful swap and mint is replayed byte-identically three times in a row and once more after the near replays (identical body, zero MintDB calls each time) and through every near-replay class (whitespace, one hex digit, key order, extra field, query string, other path, GET) which must never be served from the cache; a storage error is injected at every MintDB call index of every request type (single and persistent) and Lightning failures at CreateInvoice / InvoiceStatus: the answer must be a well-formed 400 without internal detail or internal codes"
 			runSpecs(c, c20Specs(c.Quick()))
